@@ -868,8 +868,32 @@ func dumpRaw(env *shardEnv, bucket string) []string {
 // C03: graph searches with limits, search sizes, weights and pre-filters of every kind
 func (g *genState) reqsC03(docs map[uuid.UUID]Val) []requestSpec {
 	r := g.r
-	var out []requestSpec
+	out := g.chainQueries()
 	ix := g.schema[0]
+	if g.large && len(docs) > 30 {
+		// pre-filters smaller than the search window but larger than the limit, in a collection larger than
+		// the window: the exact-within-the-filter regime where the seeding of the result set matters
+		live := make([]uuid.UUID, 0, len(docs))
+		for _, u := range g.pool {
+			if _, ok := docs[u]; ok {
+				live = append(live, u)
+			}
+		}
+		for k := 0; k < 5; k++ {
+			q := querySpec{kind: "vamana", prop: ix.path, vec: g.genVec(ix.dim)}
+			q.search = []int{25, 30, 50}[r.IntN(3)]
+			m := 4 + r.IntN(q.search-4)
+			perm := r.Perm(len(live))
+			ids := []uuid.UUID{}
+			for i := 0; i < m && i < len(perm); i++ {
+				ids = append(ids, live[perm[i]])
+			}
+			f := querySpec{kind: "idany", ids: ids}
+			q.filter = &f
+			q.limit = 1 + r.IntN(min(len(ids), 10))
+			out = append(out, requestSpec{q: q})
+		}
+	}
 	for k := 0; k < 6; k++ {
 		q := querySpec{kind: "vamana", prop: ix.path, vec: g.genVec(ix.dim)}
 		q.search = []int{25, 30, 50, 75}[r.IntN(4)]
@@ -899,9 +923,24 @@ func (g *genState) reqsC03(docs map[uuid.UUID]Val) []requestSpec {
 }
 
 // ---- C08 / C07 / C09: a mix of every query family (ids, filters, flat, text, graph with a pre-filter)
+func (g *genState) chainQueries() []requestSpec {
+	var out []requestSpec
+	for _, ix := range g.schema {
+		if ix.kind == ixVamana && g.chain > 0 {
+			for _, x := range []float32{float32(100 * g.chain), 0, float32(50 * g.chain)} {
+				v := make([]float32, ix.dim)
+				v[0] = x
+				out = append(out, requestSpec{q: querySpec{kind: "vamana", prop: ix.path, vec: v, search: 30, limit: 10}})
+			}
+		}
+	}
+	return out
+}
+
 func (g *genState) reqsC08(docs map[uuid.UUID]Val) []requestSpec {
 	r := g.r
 	out := g.reqsC01(docs)
+	out = append(out, g.chainQueries()...)
 	for k := 0; k < 5; k++ {
 		if q, ok := g.genFilter(1); ok {
 			out = append(out, requestSpec{q: q})
